@@ -2394,6 +2394,18 @@ def _strain_sequence(ctx, caseseed, it, tie):
         [(R_SOLVE, 'same'), (R_READ, None), (R_SETP, None), (R_SOLVE, 'same'), (R_READ, None), (R_SYS, None), (R_SOLVE, 'same'), (R_READ, None)],
     ]
     plan = list(rng.choice(motifs)) if rng.random() < 0.5 else []
+    # directed probe of the theta_max setter: values outside (0, 180] are ignored (nothing changes), the boundary 180 is stored
+    for th in (0, 0.0, -4.0, 180.0000001, 181, 400.0, 180, 27.0):
+        note(f'theta_max = {th}')
+        st.theta_max = th
+        if 0 < th <= 180:
+            cur['theta'] = float(th)
+        if tie:
+            ask(f'so theta {cm.fr(float(th))} {cm.fr(cosd(float(th)))}')
+        if _guard(lambda: float(st.theta_max)) != cur['theta']:
+            report('sobj:theta_max', f'after theta_max = {th!r} the object holds theta_max = {st.theta_max!r}; values outside (0, 180] '
+                   f'are ignored, valid ones stored: expected {cur["theta"]!r}')
+            return
     for step in range(nops):
         r, forced = plan.pop(0) if plan else (rng.random(), None)
         with warnings.catch_warnings():
@@ -2554,6 +2566,11 @@ def _strain_sequence(ctx, caseseed, it, tie):
                 if 0 < th <= 180:
                     cur['theta'] = float(th)
                     cur['claim'] = False
+                # the setter stores values in (0, 180] and ignores everything else (model: setTheta_accepts_iff)
+                if _guard(lambda: float(st.theta_max)) != cur['theta']:
+                    report('sobj:theta_max', f'after theta_max = {th!r} the object holds theta_max = {st.theta_max!r}; values outside (0, 180] '
+                           f'are ignored, valid ones stored: expected {cur["theta"]!r}')
+                    return
                 if tie:
                     ask(f'so theta {cm.fr(float(th))} {cm.fr(cosd(float(th)))}')
             elif r < 0.9:
